@@ -771,6 +771,7 @@ func stress(rng *prng.R, monitor bool) (ops int, fails []failRec) {
 	go func() { wg.Wait(); close(done) }()
 	ready.Wait()
 	deadline := time.Now().Add(settleLimit)
+	lastAlive, lastChange := -1, time.Now()
 	for waiting := true; waiting; {
 		select {
 		case <-done:
@@ -792,8 +793,17 @@ func stress(rng *prng.R, monitor bool) (ops int, fails []failRec) {
 				fails = append(fails, failRec{Key: "c14.stress-deadlock", What: fmt.Sprintf("free-running operations on one session (FileSys calls return at once): all %d unfinished goroutines wait for a mutex", alive)})
 				return G * perG, fails
 			}
-			if time.Now().After(deadline) {
-				fails = append(fails, failRec{Key: "c14.stress-never-returns", What: "free-running operations on one session (ungated FileSys) did not all return within " + settleLimit.String()})
+			// nobody parks here and a goroutine's whole plan takes milliseconds: when for spinLimit no goroutine
+			// has finished (and they are not all waiting for a mutex), somebody runs for ever
+			if alive != lastAlive {
+				lastAlive, lastChange = alive, time.Now()
+			}
+			if time.Since(lastChange) > spinLimit || time.Now().After(deadline) {
+				who := "operations"
+				if finished[G].Load() == false && alive == 1 {
+					who = "Stop"
+				}
+				fails = append(fails, failRec{Key: "c14.stress-never-returns:" + who, What: fmt.Sprintf("free-running operations on one session (FileSys calls return at once): %d goroutine(s) (%s) still running and none has finished for %s", alive, who, spinLimit)})
 				return G * perG, fails
 			}
 		}
@@ -1283,6 +1293,15 @@ func childMain(seed uint64, batch, count int) {
 		n, fails := stress(rng.Fork(), i%2 == 0)
 		enc.Encode(caseResult{Stress: true, StressOps: n, Fails: fails})
 		w.Flush()
+		stuck := false
+		for _, f := range fails {
+			if strings.HasPrefix(f.Key, "c14.stress-never-returns") || f.Key == "c14.stress-deadlock" {
+				stuck = true
+			}
+		}
+		if stuck {
+			break // goroutines were left behind (spinning or blocked): further rounds in this process would only be slowed by them
+		}
 	}
 }
 
